@@ -34,7 +34,7 @@ class Curve(SplineObject):
         """
         super(Curve, self).__init__([basis], controlpoints, rational, **kwargs)
 
-    def evaluate(self, *params):
+    def evaluate(self, *params, tensor=True):
         """  Evaluate the object at given parametric values.
 
         This function returns an *n1* × *n2* × ... × *dim* array, where *ni* is
